@@ -202,6 +202,8 @@ def run(P, rep, tier):
             flds = set()
             if t[0] == 'u' and t[1] == '*' and strip(t[2])[0] == 'v':
                 flds = al.get(strip(t[2])[1], set())
+            elif t[0] == 'i' and strip(t[1])[0] == 'v' and strip(t[1])[1] in al:
+                flds = al.get(strip(t[1])[1], set())          # cur[0] = v  through the alias pointer
             elif t[0] == 'i' and last_field(t):
                 flds = {last_field(t)}
             v = strip(e[3])
